@@ -47,10 +47,12 @@ def gen(cs, kinds_pool=("sec", "fi", "cp", "cp", "fi", "hedge", "cphedge"), nd=(
     if rng.random() < 0.3:
         ws[target_names[0]] = -ws[target_names[0]]
     sched = rng.choice(["daily", "weekly", "once", "everyn"])
+    # dated targets whose sign flips for the first name on some dates (long -> short -> long in single trades)
+    flip_rows = sorted(rng.sample(range(1, ndates), min(ndates - 1, rng.randint(1, 3)))) if rng.random() < 0.4 else []
     spec = {"cs": cs, "names": names, "kinds": kinds, "mults": [rng.choice([1, 1, 2]) for _ in names], "nd": ndates, "start": "2020-01-01",
             "prices": prices.tolist(), "coupons": coupons.tolist(), "cost_long": cl.tolist() if rng.random() < 0.7 else None,
             "cost_short": cs_.tolist() if rng.random() < 0.7 else None, "nv_rows": nv_rows, "nv": nv, "weights": ws, "sched": sched,
-            "integer": rng.random() < 0.3, "comm": rng.choice(["none", "none", "prop"]), "bidoffer": (rs.uniform(0, 0.2, size=(ndates, n)).tolist() if rng.random() < 0.3 else None),
+            "flip_rows": flip_rows, "integer": rng.random() < 0.3, "comm": rng.choice(["none", "none", "prop"]), "bidoffer": (rs.uniform(0, 0.2, size=(ndates, n)).tolist() if rng.random() < 0.3 else None),
             "hedges": hedged, "hedge_trades": [[rng.randint(1, ndates - 1), h, rng.choice([-1, 1]) * rng.randint(10, 500)] for h in hedged for _ in range(rng.randint(0, 2))]}
     return spec
 
@@ -67,7 +69,19 @@ def frames(spec):
     if spec["bidoffer"] is not None:
         ex["bidoffer"] = pd.DataFrame(np.array(spec["bidoffer"]), index=idx, columns=names)
     ex["nv"] = pd.Series(spec["nv"], index=idx[spec["nv_rows"]])
+    if spec.get("flip_rows"):
+        tn = list(spec["weights"].keys())
+        ex["tw"] = pd.DataFrame([[weight_at(spec, n_, r) for n_ in tn] for r in range(spec["nd"])], index=idx, columns=tn)
     return idx, data, ex
+
+
+def weight_at(spec, name, row):
+    """target weight of `name` on data row `row` (sign of the first target flips at each of spec['flip_rows'])"""
+    w = spec["weights"][name]
+    if spec.get("flip_rows") and name == list(spec["weights"].keys())[0]:
+        if sum(1 for r in spec["flip_rows"] if r <= row) % 2 == 1:
+            w = -w
+    return w
 
 
 def children(spec):
@@ -91,8 +105,9 @@ class HedgeTrader(bt.Algo):
 def make(spec, extra_algos_front=(), extra_algos_back=()):
     idx, data, ex = frames(spec)
     sched = {"daily": algos.RunDaily(), "weekly": algos.RunWeekly(), "once": algos.RunOnce(), "everyn": algos.RunEveryNPeriods(3)}[spec["sched"]]
+    weigh = algos.WeighTarget("tw") if spec.get("flip_rows") else algos.WeighSpecified(**spec["weights"])
     st = list(extra_algos_front) + [algos.run_always(HedgeTrader(spec["hedge_trades"], list(idx))), sched, algos.SelectThese(list(spec["weights"].keys())),
-                                    algos.WeighSpecified(**spec["weights"]), algos.SetNotional("nv"), algos.Rebalance()] + list(extra_algos_back)
+                                    weigh, algos.SetNotional("nv"), algos.Rebalance()] + list(extra_algos_back)
     s = FixedIncomeStrategy("fi", st, children=children(spec))
     comm = ins.Comm(spec["comm"])
     kw = dict(integer_positions=spec["integer"], commissions=(comm if spec["comm"] != "none" else None), additional_data=dict(ex))
@@ -149,8 +164,8 @@ def accrual(spec, ex, sec, i_full, pos):
 
 def signature(spec):
     return [sorted(set(spec["kinds"])), spec["sched"], spec["integer"], spec["comm"], spec["bidoffer"] is not None, spec["cost_long"] is not None,
-            spec["cost_short"] is not None, len(spec["nv_rows"]) < spec["nd"]]
+            spec["cost_short"] is not None, len(spec["nv_rows"]) < spec["nd"], bool(spec.get("flip_rows"))]
 
 
 def sample_of(spec):
-    return {k: spec[k] for k in ("names", "kinds", "mults", "nd", "weights", "sched", "integer", "comm", "nv_rows", "nv", "hedge_trades")}
+    return {k: spec[k] for k in ("names", "kinds", "mults", "nd", "weights", "flip_rows", "sched", "integer", "comm", "nv_rows", "nv", "hedge_trades")}
